@@ -29,6 +29,9 @@ add("C13", "Theorems about the hand-written model Ebr.v of the EBR core, for eve
 add("C14", "Theorems about Ebr.v for all programs and schedules: the global epoch never decreases and moves by at most one per transition (C14_monotone), every validated-pinned participant has ann <= G <= ann+1 at every micro-step, also across repin_without_collect (C14_skew), and the announcement of a participant inside a critical section never changes (C14_ann_stable); plus machine-level lemmas about the generated image of epoch.rs (successor/pinned/unpinned/value/wrapping_sub/is_expired agree with +1, the flag and subtraction below 2^62). Tied to the code by exact replay (sites 10..23), a trace monitor (observed epochs monotone; within one of every pinned thread) and the pure differential stream for Epoch.",
     "Model hand-written (Ebr.v) / generated (EpochW.v); tie sampled. SC only: the Relaxed loads/stores and the x86 lock-cmpxchg-as-fence of pin are outside the model.",
     "Coq proof (inductive invariant over all schedules) over hand-written model + schedule-driven correspondence")
+add("C15", "Safety half proved, progress half partial. Proved (Coq, every program incl. closures that defer again, every number of participants, every schedule): the multiset of deferred-function ids held in programs, continuation frames, thread-local bags, the global queue of sealed bags and the list of executed ids is invariant under every transition of Ebr.v (C15_micro_conserves) - nothing is lost, duplicated or invented; with distinct ids no function runs twice and each id is always either executed exactly once or held in exactly one place (C15_exactly_once); a function is only ever executed by the transition that takes it out of a popped bag (C15_micro_runs). Progress: a sequential drain theorem (C15_drain: other participants idle, length(queue)+3 pin/flush/unpin rounds execute everything, empty bodies) and try_advance_increments; no concurrent liveness theorem. Tied to the code by exact replay of the real collector (every execution 2010 is an observation compared step by step), an implementation-side exactly-once and quiescence monitor (executed = deferred after the handles are released and the survivor runs rounds), and the c15 stream for what the model does not contain: thread exit with pending garbage in five release orders, bag overflow, inline vs boxed closure storage (captures 0..4096 bytes, alignments up to 64) with checksummed captured data.",
+    "Model hand-written; tie sampled. Thread exit is not in Ebr.v (it is in the sequential guard model of C20 and in the c15 stream). Liveness under concurrency is tested, not proved.",
+    "Coq proof (conservation invariant, exactly-once corollaries, sequential drain) over hand-written model + schedule-driven correspondence + implementation-side exit/closure-storage stream")
 add("C17", "Theorems about the hand-written model Queue.v of the Michael-Scott queue at one-shared-access granularity, for all programs and schedules: structural invariant (write-once next, finite duplicate-free chain, head/tail on it), linearisation points (successful CAS on tail_node.next appends exactly that value; successful CAS on head removes the first element and is what the operation later returns), FIFO (pushed = popped ++ queue, each node removed at most once), try_pop_if removes the very element its predicate was evaluated on, and a None answer implies the queue was empty or its then-first element failed the predicate at an instant inside the call. Tied to the real queue (sites 30..44) by exact step-by-step replay.",
     "Model hand-written; tie sampled. SC only. Nodes not reused inside a case (justified by C13). No spurious CAS failure.",
     "Coq proof (invariant + history variables) over hand-written model + schedule-driven correspondence")
@@ -68,7 +71,6 @@ PENDING = {
     "C04": "model M3 under construction; not yet registered",
     "C05": "model M3 under construction; not yet registered",
     "C10": "model M3 under construction; not yet registered",
-    "C15": "model M2 (Ebr.v) exists; proofs under construction",
     "C16": "sequential guard model under construction",
     "C20": "sequential guard/TLS model under construction",
 }
